@@ -32,7 +32,7 @@ Ops == { XStr(<< <<65>> >>), XStr(<<>>), XStr(<< <<66>>, <<67, 32>> >>),
 
 V(var, items) == [var |-> var, items |-> items]
 (* kept in separate sets: item shapes differ between the variant classes *)
-InitText == { V("Empty", <<>>), V("Str", << <<83>> >>), V("Strs", <<>>), V("Strs", << <<97>>, <<98>>, <<99>> >>) }
+InitText == { V("Empty", <<>>), V("Str", << <<83>> >>), V("Str", << <<32, 49, 50, 32>> >>), V("Str", << <<>> >>), V("Strs", <<>>), V("Strs", << <<97>>, <<98>>, <<99>> >>) }
 InitInt == { V("U8", <<NFromInt(200)>>), V("I16", <<NFromInt(-5), NFromInt(7)>>), V("U16", <<NFromInt(65535)>>),
               V("I32", <<I32Min, NFromInt(0), NFromInt(5)>>), V("U32", <<U32Max>>),
               V("I64", <<Neg(P63)>>), V("U64", <<Pos(DSub(P64, <<1>>)), NFromInt(1)>>) }
@@ -49,7 +49,8 @@ Step(op) == /\ steps < MaxSteps
             /\ ~OpUndecided(val, op)
             /\ LET r == Apply(val, op) IN
                  /\ val' = r.v
-                 /\ hist' = IF Record THEN Append(hist, [op |-> op, before |-> val, ok |-> r.ok, after |-> r.v]) ELSE hist
+                 /\ hist' = IF Record THEN Append(hist, [op |-> op, before |-> val, ok |-> r.ok, after |-> r.v, mult |-> Mult(r.v),
+                                                        convj |-> ~HasWildcard(r.v), conv |-> IF HasWildcard(r.v) THEN ErrInts ELSE ListConv(r.v)]) ELSE hist
             /\ steps' = steps + 1
 
 ExtendStr == \E op \in {x \in Ops : x.o = "xstr"} : Step(op)
@@ -86,6 +87,9 @@ OpLaws == \A op \in Ops : OpUndecided(val, op) \/
       /\ (op.o = "trunc") => (/\ Len(r.v.items) = MinI(op.limit, Len(val.items))     \* a prefix remains
                               /\ IsPrefix(r.v.items, val.items))
       /\ (op.o = "trunc") => Apply(r.v, op).v = r.v                                  \* idempotent
+      /\ (op.o = "trunc" /\ op.limit = 0) => (/\ Mult(r.v) = 0                        \* truncate(0) empties every variant
+                                              /\ (r.v.var \in IntVars \cup TextVars \cup {"Empty"}) => ListConv(r.v) = OkInts(<<>>))
+      /\ (op.o = "trunc" /\ op.limit >= 1 /\ val.var = "Str") => r.v = val           \* a single string has one item
 
 (* an extended integer value still converts item by item to its own type *)
 ConvLaw == (val.var \in IntVars /\ \A i \in 1..Len(val.items) : val.items[i] # AnyN) =>
